@@ -1082,7 +1082,7 @@ theorem execAct_keeps {cfg : Cfg} {fs : FS} {rec : Runner} {a : Act} {fr fr' : F
     · rename_i mv s1 hir
       rw [het] at h
       split at h
-      · rename_i hc; cases hc
+      · rename_i hc _; cases hc
       · rename_i hc _; cases hc
       · simp only [Option.some.injEq, Prod.mk.injEq] at h
         rw [← h.2.2, ← h.2.1, hroot hir, addWild_exportTop]; exact ⟨rfl, rfl⟩
